@@ -184,7 +184,7 @@ CLAIMED = {
         "real ThreadPools of size 1..16 under a 1e-6 s switch interval, outputs compared bit-for-bit with the serial run.",
         "Trusted: Lean kernel; the GIL, NumPy's internal locking and the allocator are outside the model; the seeded "
         "scheduler interleaves at source-line (not single-bytecode) granularity of catii code.",
-        "Lean 4 proof (frame + locality => commutation, induction over schedules, partial) + deterministic seeded scheduling",
+        "Lean 4 proof (frame + locality => commutation, induction over schedules, partial) + deterministic seeded scheduling + driver facts regenerated from ccube.calculate / xcube.calculate (translator) discharging the model's assumptions about task footprints",
         "DESIGN.md §5 C16"),
     "C20": (
         "Lean 4 theorems about the driver fold with a raising callback: serial evaluation stops at the first raising "
@@ -195,7 +195,7 @@ CLAIMED = {
         "scheduler, real ThreadPool under a hard timeout), exception identity, call counts, bit-for-bit re-use.",
         "Trusted: Lean kernel; CPython ThreadPool semantics; interrupts are Exception subclasses (a BaseException case is "
         "checked too).",
-        "Lean 4 proof (fold with raising callback) + fault enumeration at every cancellation point",
+        "Lean 4 proof (fold with raising callback) + fault enumeration at every cancellation point + driver facts regenerated from the source (callback first and once per task, pool.map re-raise) discharging the model's assumptions",
         "DESIGN.md §5 C20"),
     "C13": (
         "Lean 4 theorems about the slices1d model: every yielded pair is labelled with its higher coordinates in axis order "
@@ -217,7 +217,7 @@ CLAIMED = {
         "function objects, and snapshots receivers/arguments of the non-mutating index methods. Partial: fill/reduce methods "
         "and index methods are not translated; global interpreter state is outside the model.",
         "Trusted: Lean kernel; tools/translate.py's classification of NumPy expressions into alias / fresh (views vs copies).",
-        "Lean 4 proof (sound alias analysis on translator-regenerated constructor programs) + byte-level purity harness",
+        "Lean 4 proof (sound alias analysis on translator-regenerated constructor programs) + byte-level purity harness + regions-fresh-per-call fact regenerated from the drivers",
         "DESIGN.md §5 C17"),
     "C18": (
         "Lean 4 theorems: for ANY per-bin functional the array cube applies it to exactly the rows of the cell and the bins "
